@@ -218,7 +218,8 @@ def helper_formulas(out, rng, N):
         got.append(list(m[0]._dv) + list(m[1]._accel) + list(m[2]._dv) + [m[1].duration.total_seconds()]); exp.append([0, sv, 0, -(2 * n * sv), 0, 0, 0, -sv, 0, abs(d / v)])
         out.count(key=("helper-formulas", sma, r, d, v), kind="helper-formulas")
         for g, e in zip(got, exp):
-            if not all(abs(float(a) - b) <= 1e-9 * max(abs(b), 1e-12) + 2e-6 * (abs(b) > 100) for a, b in zip(g, e)):
+            # the last entry of each tuple is a duration: timedelta rounds it to the microsecond
+            if not all(abs(float(a) - b) <= 1e-9 * max(abs(b), 1e-12) + (1e-6 if i == len(e) - 1 else 0.0) for i, (a, b) in enumerate(zip(g, e))):
                 out.fail("helper-formulas", "CWHelper returns maneuvers different from the formulas the helper theorems start from",
                          {"sma": sma, "radial": r, "tangential": d, "v": v}, observed=[float(x) for x in g], expected=e)
                 break
